@@ -56,7 +56,7 @@ def op_list(draw, maxlen=8, allow_other=False, allow_singular=False, pmax=4, nee
 
 
 @st.composite
-def hist_case(draw, nmax=30, maxlen=8, allow_other=False, allow_singular=False, precs=PRECS, pmax=4):
+def hist_case(draw, nmax=30, maxlen=8, allow_other=False, allow_singular=False, precs=PRECS, pmax=4, user_ws=False):
     prec = draw(st.sampled_from(list(precs)))
     rec = draw(mx.recipe(2, nmax, None, ("dominant",), allow_zero_diag=True))
     entries = mx.entries_of(rec, prec)
@@ -64,6 +64,11 @@ def hist_case(draw, nmax=30, maxlen=8, allow_other=False, allow_singular=False, 
     s = {"prec": prec, "n": rec["n"], "m": rec["n"], "stype": "NC", "order": draw(st.sampled_from(["0", "1", "2", "3"]))}
     s.update(tun)
     ops = draw(op_list(maxlen, allow_other, allow_singular, pmax, False, prec))
+    if user_ws and draw(st.integers(0, 2)) == 0:
+        # the whole history runs in a caller-supplied workspace sized from the library's own query (for 4 threads)
+        s["ws_factor"] = draw(st.sampled_from([1.5, 2.0, 4.0])); s["ws_P"] = 4
+        ops = [o for o in ops if not o.startswith("GSSV")]
+        if not ops or not ops[0].startswith("FIRST"): ops = ["FIRST P=1 u=1.0"] + ops
     return {"set": s, "entries": entries, "ops": ops, "family": rec["family"]}
 
 
@@ -78,5 +83,6 @@ def hist_classes(case, v):
     if f.get("usepr_fallback", 0): labs.append("usepr_fallback")
     if f.get("singular_steps", 0): labs.append("singular_step")
     if any(" P=2" in o or " P=3" in o or " P=4" in o for o in ops): labs.append("has_parallel_step")
+    if s.get("ws_factor"): labs.append("user_workspace x%s" % s["ws_factor"])
     if v.get("v") == "fail": labs.append("sig=" + v.get("sig", ""))
     return labs
